@@ -260,3 +260,64 @@ func H10m_Map() {
 		vrt.Assert("prior entry keeps its value unless overwritten", vrt.Implies(vrt.And(ok, !inSrc), v == pv))
 	}
 }
+
+// H10m_ProtoAppendStruct: repeated-field form appended into a re-used slice of
+// structs whose spare capacity holds old elements: the appended elements must
+// not inherit their omitted fields from them.
+func H10m_ProtoAppendStruct() {
+	setBounds()
+	p := newPlenc(cfgDef)
+	var src V_TProtoT
+	src.Fill("src")
+	data, err := p.Marshal(nil, &src.V)
+	vrt.Assert("marshal ok", err == nil)
+	var tgt cat.TProtoT
+	n := vrt.Choice("prior.len", 2)
+	tgt.T = dirtyIns("prior", n, 1+vrt.Choice("prior.spare", 2))
+	before := append([]cat.TIn{}, tgt.T...)
+	vrt.Assert("unmarshal ok", p.Unmarshal(data, &tgt) == nil)
+	vrt.Assert("appended", len(tgt.T) == n+len(src.V.T))
+	if len(tgt.T) == n+len(src.V.T) {
+		for i := 0; i < n; i++ {
+			vrt.Assert("existing elements kept", eqIn(&before[i], &tgt.T[i]))
+		}
+		for i := range src.V.T {
+			vrt.Assert("appended element equals the encoded one (no stale fields)", eqIn(&src.V.T[i], &tgt.T[n+i]))
+		}
+	}
+}
+
+// H10h_AfterError: a decode that fails half-way must not poison later decodes
+// on the same instance (pooled scratch state).
+func H10h_AfterError() {
+	setBounds()
+	p := newPlenc(cfgDef)
+	var y V_TMapK
+	FillSmall = true
+	y.Fill("first")
+	FillSmall = false
+	d1, err := p.Marshal(nil, &y.V)
+	vrt.Assert("marshal first ok", err == nil)
+	// corrupt the first encoding: cut it short, or overwrite its last byte
+	if len(d1) > 0 {
+		switch vrt.Choice("corrupt", 3) {
+		case 0:
+			d1 = d1[:len(d1)-1]
+		case 1:
+			d1[len(d1)-1] = vrt.U8("junk")
+		case 2:
+			d1 = append(d1[:len(d1)-1:len(d1)-1], 0xff, 0xff)
+		}
+	}
+	var o1 cat.TMapK
+	_ = p.Unmarshal(d1, &o1) // may fail: that is the point
+	var x V_TMapK
+	FillSmall = !vrt.Thorough()
+	x.Fill("second")
+	FillSmall = false
+	d2, err := p.Marshal(nil, &x.V)
+	vrt.Assert("marshal second ok", err == nil)
+	var o2 cat.TMapK
+	vrt.Assert("unmarshal second ok", p.Unmarshal(d2, &o2) == nil)
+	vrt.Assert("decode after a failed decode is unaffected by it", x.Eq(&o2, false))
+}
